@@ -21,11 +21,15 @@ DOT = z3.Function("DOT", z3.IntSort(), IdxArr, IdxArr, z3.RealSort())
 SUM = z3.Function("SUM", z3.IntSort(), IdxArr, z3.RealSort())
 
 
-class NArr:
+class NArr(E.SymSeq):
     def __init__(self, length, elem, label="arr"):
         self.length = length
         self.elem = elem
         self.label = label
+
+    @property
+    def shape(self):
+        return (self.length,)
 
     def __repr__(self):
         return "NArr({}, len={})".format(self.label, self.length)
